@@ -104,11 +104,78 @@ PROPS = {
                        'extension dispatch in main()) has no function boundary within verifier reach and is NOT decided.',
         'assumptions': ['byte<->word conversion and file I/O in main()/run() are outside the contracts'],
     },
+    'C04': {
+        'level': 'proof',
+        'kani': True,
+        'explanation': 'Acceptance is proved as an IFF against the field table: expect_lit (range closure == fits(bits, v) for Signed/Unsigned n), '
+                       'parse_instr accepts exactly when every operand is of the right kind and fits (imm5 Signed(5), offset6 Signed(6), PC offsets '
+                       'Signed(9/11), trap vector Unsigned(8), .orig Unsigned(16)) and never consumes/keeps anything else; bit_offs/emit reject exactly '
+                       'when the 16-bit label distance does not fit the 9/10/11-bit field (never truncated: Kani complete twin + Verus); Air::set_orig '
+                       'errors on the second .orig; Label::insert errors iff the key exists; Label::filled/backpatch error iff a referenced label is undefined.',
+        'assumptions': ['token values are what the text denotes (lexer literal range is a bounded Kani check, not proof)',
+                        'HashMap<String,_> behaves as a map keyed by string content (SymTab stand-in, R10/R11)'],
+    },
+    'C05': {
+        'level': 'proof',
+        'kani': False,
+        'explanation': 'Totality of the parser/AIR layer as implicit obligations of every function under contract in U-PARSE/U-AIR/U-SYM: no arithmetic '
+                       'overflow (line counter, literal offsets, span arithmetic, bit_offs), no out-of-bounds index, every panic!/unreachable!/assert! '
+                       'unreachable or true (incl. Display of unexpected tokens via the displayable() precondition), termination of parse '
+                       '(decreases: tokens left). The text layer (lexer, preprocess, error slicing, miette rendering) is outside Verus reach: NOT decided here.',
+        'assumptions': ['preprocess hands the parser a stream without whitespace/comment/eof tokens whose only directive is .orig (pstream_ok) — '
+                        'assumed, text layer not deductively verified', 'diagnostic rendering not modelled (R5)'],
+    },
+    'C07': {
+        'level': 'proof',
+        'kani': True,
+        'explanation': 'assemble() (shared by check and watch) is proved to return Ok only if every statement has its labels resolved and enc_spec is '
+                       'defined for it, i.e. emission cannot fail afterwards — so a source that check accepts always compiles/runs. Uses the contracts '
+                       'of parse, Air::backpatch and AsmLine::emit (emit fails iff enc_spec is None).',
+        'assumptions': ['feature-flag initialisation per subcommand (features::init not called by check/watch) is caller history on a thread-local in '
+                        'main(): NOT decided by this technique (known defect recorded in DESIGN §7)', 'exit codes are process behaviour: not decided'],
+    },
+    'C15': {
+        'level': 'proof',
+        'kani': True,
+        'explanation': 'eval_inner is proved: errors and refused instructions (BR*, RTI, HALT, unknown traps) leave the machine untouched; otherwise the '
+                       'machine does exactly step_spec of the encoding of an allowed statement with resolved labels, numbered pc-orig; the instruction '
+                       'handed to the VM can never take an error exit (never ends the session); composition lemma lemma_eval_label_target proves that '
+                       'with this numbering a label operand addresses orig+line-1 — the label\'s own address — at every PC.',
+        'assumptions': ['lemma_enc_opcode (opcode bits of the encoding) is assumed in Verus and discharged by the complete Kani harness enc_opcode_complete',
+                        'text -> tokens of the one-instruction parser is the unverified lexer (new_simple assumed)'],
+    },
+    'C17': {
+        'level': 'proof',
+        'kani': False,
+        'explanation': 'Address/index arithmetic of the debugger\'s view: get_source_statement(a) is Some(ast[a-orig]) exactly for orig <= a < orig+len; '
+                       'resolve_symbol_address(name) == table[name]-1; resolve_label == orig + index + offset inside user space (offs_spec); parse binds '
+                       'every prefix label to the number of the statement it marks (verif_label_insert: line == current line; lines_ok: ast[i].line == i+1); '
+                       'parse_instr proves the statement text ends at its last operand (tok_end), Span::join covers both spans.',
+        'assumptions': ['that token spans delimit the right text and that slicing src[span] shows it is the lexer / str indexing: not decided',
+                        'rendering (show_line_context) and hash-map iteration order in resolve_symbol_name: not decided'],
+    },
+    'C18': {
+        'level': 'proof',
+        'kani': True,
+        'explanation': 'Run time: RunState::stack is proved to reach exit(1) exactly when the flag is off (before any state change) and to execute '
+                       'step_stack otherwise; run_command: `step out` availability equals the flag as coded. Assembly time: Kani harness on '
+                       'check_instruction with the flag stubbed symbolic (bounded by identifier length). Source scan: the flag is read nowhere else.',
+        'assumptions': ['features::stack() constant during a run', 'clap parsing of -f and diagnostic text: not decided'],
+    },
+    'C19': {
+        'level': 'other',
+        'kani': False,
+        'explanation': 'reset_state is proved to leave the symbol table empty; every assembler function under contract is, by construction of the '
+                       'verified text, a function of its explicit arguments plus the lifted table parameter (R11) and features::stack(); Air::new is '
+                       'proved empty; a source scan shows SYMBOL_TABLE is the only process-global in the assembler files and is touched only inside '
+                       'with_symbol_table. The history-level statement is argued from these, not machine-checked.',
+        'assumptions': ['lexer not extracted (covered by the scan only)', 'the watch closure in main() that must call reset_state is outside reach'],
+    },
 }
 
 NOT_APPLICABLE = {
     'C08': 'file-system effect ordering and exit status of a main() match arm under injected I/O faults: no function boundary, '
            'no returnable state and no contract language for file contents with the installed verifiers (DESIGN §5 C08)',
 }
-for _p in ['C04', 'C05', 'C07', 'C14', 'C15', 'C17', 'C18', 'C19', 'C20']:
+for _p in ['C14', 'C20']:
     NOT_APPLICABLE.setdefault(_p, 'check not built yet in this revision (planned, see DESIGN.md §5)')
